@@ -18,7 +18,7 @@ MissingTargets == {n \in V2Names : V2Target(n) \notin DeclNames}
 TargetsExist == MissingTargets = {}
 
 ArgVal(c, pn) == Args(c)[CHOOSE k \in 1..Len(Args(c)) : Args(c)[k][1] = pn][2]
-NameOf(v) == IF v[1] = "ref" THEN v[2] ELSE IF v[1] = "str" THEN "a" ELSE ""       \* the text of a field-name value ("a": the fixture column)
+NameOf(v) == IF v[1] = "ref" THEN v[2] ELSE IF v[1] = "str" THEN (IF v[2] = "colb" THEN "b" ELSE "a") ELSE ""   \* the text of a field-name value (fixture columns a, b)
 IsV2File(prog) == \E i \in 1..Len(prog) : Res(prog[i]) = "" \/ CName(prog[i]) \in V2Names
 ConvertCmd(c) ==
     << (IF Res(c) # "" THEN Res(c)
@@ -37,10 +37,13 @@ V2Cmd(n, newfield, outfile, named) ==
        ArgsFor(d, FALSE)
        \o (IF newfield THEN << <<"NewFieldName", <<"ref", "NF">>>> >> ELSE <<>>)
        \o (IF outfile THEN << <<"OutFileName", <<"str", "rel_missing">>>> >> ELSE <<>>) >>
+\* a second legacy command without any NewFieldName, after the one under test: its result name must be its own InFieldName
+PlainRead == <<"", "READ", << <<"InFileName", <<"str", "rel_exists">>>>, <<"InFieldName", <<"str", "colb">>>> >> >>
 VARIABLES v2, image, done
 vars == <<v2, image, done>>
-Init == /\ \E n \in V2Names \ MissingTargets, nf \in BOOLEAN, of \in BOOLEAN, named \in BOOLEAN, pos \in {"first", "last"} :
-              v2 = IF pos = "first" THEN <<V2Cmd(n, nf, of, named)>> \o Fix2 ELSE Fix2 \o <<V2Cmd(n, nf, of, named)>>
+Init == /\ \E n \in V2Names \ MissingTargets, nf \in BOOLEAN, of \in BOOLEAN, named \in BOOLEAN, pos \in {"first", "last"}, second \in BOOLEAN :
+              LET tail == IF second THEN <<PlainRead>> ELSE <<>> IN
+              v2 = IF pos = "first" THEN <<V2Cmd(n, nf, of, named)>> \o tail \o Fix2 ELSE Fix2 \o <<V2Cmd(n, nf, of, named)>> \o tail
         /\ image = <<>> /\ done = FALSE
 Apply == ~done /\ done' = TRUE /\ image' = Convert(v2) /\ UNCHANGED v2
 Next == Apply
